@@ -336,13 +336,25 @@ class _Call:
         return _status(self.exc, self.done.is_set())
 
 
+def _os_state(t):
+    """scheduler state of a thread from /proc: 'S' = blocked (lock, event, select); 'R' = running or waiting for a CPU"""
+    try:
+        with open(f"/proc/self/task/{t.native_id}/stat") as fh:
+            return fh.read().rsplit(")", 1)[1].split()[0]
+    except (OSError, IndexError, TypeError):
+        return "?"
+
+
 def _snapshot(threads):
+    """None if some thread is runnable; else the (frame, instruction) position of every live thread"""
     frames = sys._current_frames()
     snap = []
     for t in threads:
         if not t.is_alive():
             snap.append(None)
             continue
+        if _os_state(t) not in ("S", "?"):
+            return None
         f = frames.get(t.ident)
         snap.append((id(f), f.f_lasti) if f is not None else None)
     return tuple(snap)
@@ -356,7 +368,9 @@ def _quiesce(threads):
     while time.monotonic() < deadline:
         time.sleep(SAMPLE)
         snap = _snapshot(threads)
-        if snap == last:
+        if snap is None:
+            same, last = 0, None
+        elif snap == last:
             same += 1
             if same >= 4:
                 return True
@@ -408,6 +422,23 @@ def _run_standalone(inp):
     else:
         from easynetwork.servers.standalone_udp import StandaloneUDPNetworkServer
         srv = StandaloneUDPNetworkServer("127.0.0.1", 0, DatagramProtocol(StringLineSerializer()), DH(), logger=logger)
+    # start-up window gate: the server factory is called by the serving thread while it holds the close lock and the
+    # bootstrap lock (they are released only once the portal exists)
+    gated = bool(_gates[0])
+    window_gate = threading.Event()
+    in_window = threading.Event()
+    if gated:
+        attr = "_BaseStandaloneNetworkServerImpl__server_factory"
+        orig_factory = getattr(srv, attr)
+
+        def gated_factory(backend):
+            in_window.set()
+            window_gate.wait(WATCHDOG * 4)
+            window_gate.clear()
+            in_window.clear()
+            return orig_factory(backend)
+
+        setattr(srv, attr, gated_factory)
     before = set(threading.enumerate())
     calls, clients, obs = [], [], []
     stuck = False
@@ -436,15 +467,23 @@ def _run_standalone(inp):
                         _quiesce(_loop_threads(before))
                         s.sendto(b"queued", (a[0].host, a[0].port))
                         clients.append(s)
+            elif lab == L_REL_FACTORY:
+                window_gate.set()
             if not _quiesce(_loop_threads(before)):
                 stuck = True
-            serving = _with_watchdog(lambda: int(srv.is_serving()), 2)
-            listening = _with_watchdog(lambda: int(len(srv.get_addresses()) > 0), 2)
+            if in_window.is_set():
+                serving = listening = 0        # is_serving() would block on the bootstrap lock: that is the window
+            else:
+                serving = _with_watchdog(lambda: int(srv.is_serving()), 2)
+                listening = _with_watchdog(lambda: int(len(srv.get_addresses()) > 0), 2)
             # the two queries above run in the loop thread: let it come to rest again
             _quiesce(_loop_threads(before))
             obs.append([[c.status() if not stuck else 8 for c in calls], serving, listening])
     finally:
         never.set()
+        window_gate.set()
+        if gated:
+            setattr(srv, attr, orig_factory)
         for c in clients:
             with contextlib.suppress(Exception):
                 c.close()
@@ -525,6 +564,13 @@ def cases(tier, rng, escalate):
         yield _mk(2, (0, 0, 0), seq, ["clients"])
     for seq in ([0, 9, 1], [0, 9, 2], [0, 9, 1, 0, 1], [0, 9, 2, 0]):
         yield _mk(3, (0, 0, 0), seq, ["clients"])
+    # start-up window (close lock + bootstrap lock held until the portal exists): one call issued inside the window
+    for kind in (2, 3):
+        for inside in (L_SERVE, L_SHUTDOWN, L_CLOSE, None):
+            for after in ([], [L_SHUTDOWN], [L_CLOSE], [L_SERVE], [L_CLOSE, L_SERVE, L_REL_FACTORY], [L_SHUTDOWN, L_SERVE, L_REL_FACTORY, L_SHUTDOWN]):
+                for pre in ([], [L_CLOSE], [L_SHUTDOWN]):
+                    seq = pre + [L_SERVE] + ([inside] if inside is not None else []) + [L_REL_FACTORY] + after
+                    yield _mk(kind, (1, 0, 0), seq, ["startup-window"])
     for _ in range(200 if thorough else 25):
         kind = rng.choice((2, 2, 3))
         alpha = [L_SERVE, L_SERVE, L_SHUTDOWN, L_CLOSE] + ([L_CONNECT, L_DISCONNECT] if kind == 2 else [])
